@@ -11,9 +11,10 @@ Clauses
   finite      no NaN/inf
   quadratic   pure quadratics: |H - Q|_jk <= 256 eps sup|f on the reached box| / (hmin_j hmin_k)
               (multicomplex, which forms no difference: <= 16 eps |Q_jk|)
-  envelope    |H - exact|_jk <= TOL_H[method] * S_2(j, k) + floor
-  hd-quadratic / hd-envelope   the same for Hessdiag(method, order in {2, 4, 6}) with TOL_HD[method]
-  consistency |diag(H) - Hessdiag|_j <= K_CONS (est_H_jj + est_diag_j) + floor
+  envelope    |H - exact|_jk <= TOL_H[method|k-bucket] * S_2(j, k) + floor
+  hd-quadratic / hd-envelope   the same for Hessdiag(method, order in {2, 4, 6}) with TOL_HD[method|k-bucket]
+  consistency |diag(H) - Hessdiag|_j <= K_CONS (est_H_jj + est_diag_j) + floor, asserted when both
+              configurations leave >= 2 estimates and reach <= rho_cert/4 (DESIGN C02 / F10)
 floor = 64 eps (|exact| + (n+2) noise / (hmin_j hmin_k))   (second term only for difference-forming rules).
 """
 import math
@@ -38,10 +39,10 @@ QUAD_MCX = 16.0
 K_CONS = 1e4
 H_METHODS = ['central', 'central2', 'forward', 'backward', 'complex', 'multicomplex']
 REAL_STEP = ('central', 'central2', 'forward', 'backward')
-TOL_H = {'central': None, 'central2': None, 'forward': None, 'backward': None, 'complex': None,
-         'multicomplex': None}
-TOL_HD = {'central': None, 'central2': None, 'forward': None, 'backward': None, 'complex': None,
-          'multicomplex': None}
+# tol[method|k-bucket] (k = number of derivative estimates left after the difference rule; for Hessian the
+# number of generated steps).  Missing key = weak cell: shape, symmetry and finiteness only.
+TOL_H = {}
+TOL_HD = {}
 KINDS = ('quadratic', 'ridge', 'ridge', 'ridge')
 F9_OPS = ('arctan', 'arcsin', 'arccos')
 
@@ -88,7 +89,7 @@ class C04(Prop):
         'mpmath 60-digit jets and chain/product rules are exact to < 1e-30 relative (cross-checked against '
         'mpmath.diff on an independent closure)',
         'ball-arithmetic analyticity certificate is conservative',
-        'TOL_H / TOL_HD per method calibrated >= 10x above the worst ratio over 8 seeds; None = weak cell '
+        'TOL_H / TOL_HD per (method, k-bucket) calibrated >= 10x above the worst ratio over 8 seeds; None = weak cell '
         '(shape, symmetry, finiteness only)',
     )
     examples = {'quick': 250, 'thorough': 5000}
@@ -174,8 +175,8 @@ class C04(Prop):
                 if scale != 1.0:
                     ctx.count('steps scaled into the certified disc')
                 hs = np.array([np.ravel(s) for s in steps])
-                boundsH = self._compare(ctx, case, an, H, Hex, hs, method, None, len(steps), 'hessian', quad,
-                                        final_step(info, (n, n)))
+                fsH = final_step(info, (n, n))
+                boundsH = self._compare(ctx, case, an, H, Hex, hs, method, None, len(steps), 'hessian', quad, fsH)
                 # ---------------- Hessdiag ------------------------------------------------
                 hm, ho = case['hd_method'], case['hd_order']
                 ctx.count('hessdiag=%s|order=%d' % (hm, ho))
@@ -196,8 +197,8 @@ class C04(Prop):
                     raise Violation('shape', 'Hessdiag error_estimate shape %s' % (estD.shape,),
                                     target='hessdiag')
                 dhs = np.array([np.ravel(s) for s in dsteps])
-                boundsD = self._compare(ctx, case, an, hd, np.diag(Hex), dhs, hm, ho, k_est, 'hessdiag', quad,
-                                        final_step(dinfo, (n,)))
+                fsD = final_step(dinfo, (n,))
+                boundsD = self._compare(ctx, case, an, hd, np.diag(Hex), dhs, hm, ho, k_est, 'hessdiag', quad, fsD)
                 # ---------------- consistency ----------------------------------------------
                 for j in range(n):
                     diff = abs(H[j, j] - hd[j])
@@ -206,13 +207,29 @@ class C04(Prop):
                     noisy = difference_forming(method) or difference_forming(hm)
                     floor = FLOOR * EPS * (abs(Hex[j, j]) + (n + 2) * (
                         an.cond(0, (j, j)) + (an.noise(0) / hmin2 if noisy else 0.0)))
+                    # rounding of the function values at the steps the library reports having used (both
+                    # may legitimately return 0 +- 0 when every sample rounds to the same float, C02 (a))
+                    for meth, fs, hcol, wd in ((method, fsH[j, j] if fsH is not None else None, hs[:, j],
+                                                hess_width(method)),
+                                               (hm, fsD[j] if fsD is not None else None, dhs[:, j], hd_width(hm))):
+                        if difference_forming(meth):
+                            hf = hcol.min() if fs is None or not math.isfinite(fs) else \
+                                min(max(fs, hcol.min()), hcol.max())
+                            Mv = float(an.majorant(0, (j,), [min(wd * hf, an.reach_limit((j,)), mv.R_CAP)])[0])
+                            if math.isfinite(Mv):
+                                floor += FLOOR * EPS * 2.0 * Mv / hf ** 2
                     excess = max(diff - floor, 0.0)
                     r = excess / est if est > 0 else (0.0 if excess == 0 else math.inf)
-                    ctx.track('cons |Hjj-hd_j|/(estH+estD)|%s|%s%s' % (method, hm, self._kc), r,
+                    reach = max(hess_width(method) * float(hs[:, j].max()), hd_width(hm) * float(dhs[:, j].max()))
+                    informative = min(len(steps), k_est) >= 2 and reach <= an.reach_limit() / 2.0
+                    ctx.track('cons |Hjj-hd_j|/(estH+estD)|%s|%s|%s%s' % (
+                        method, hm, 'k>=2' if informative else 'k=1 or reach>rho/4 (not asserted)', self._kc), r,
                               dict(prog=mv.describe(prog), x=x, j=j, H=H[j, j], hd=hd[j], exact=Hex[j, j],
                                    estH=estH[j, j], estD=estD[j], step=case['step'], hd_step=case['hd_step'],
                                    order=ho))
-                    if r > K_CONS and not CALIBRATE:
+                    if not informative:
+                        ctx.count('consistency not asserted: single-estimate configuration or reach > rho/4 (C02/F10)')
+                    if informative and r > K_CONS and not CALIBRATE:
                         raise Violation('consistency', 'diag(H)[%d]=%r (%s, est %.3g) vs Hessdiag=%r (%s order %d, '
                                         'est %.3g), exact %r: |diff|=%.3g > K(%g)*est + floor(%.3g)'
                                         % (j, H[j, j], method, estH[j, j], hd[j], hm, ho, estD[j], Hex[j, j],
@@ -240,7 +257,8 @@ class C04(Prop):
         x = case['x']
         diag_only = lib.ndim == 1
         w = hd_width(method) if diag_only else hess_width(method)
-        tol = (TOL_HD if diag_only else TOL_H)[method]
+        bucket = mv.kbucket(k_est)
+        tol = (TOL_HD if diag_only else TOL_H).get('%s|%s' % (method, bucket))
         dform = difference_forming(method)
         hmin, hmax = hs.min(axis=0), hs.max(axis=0)
         bounds = np.full(lib.shape, np.inf)
@@ -249,7 +267,7 @@ class C04(Prop):
                             'certified domain)' % target, target=target, lib=lib)
         if an.wrap is None and np.iscomplexobj(lib) and np.any(np.imag(lib) != 0):
             raise Violation('real', '%s is complex for a real function' % target, target=target)
-        label = '%s|%s' % (target, method) + ('' if order is None else '|order=%d' % order)
+        label = '%s|%s|%s' % (target, method, bucket)
         pairs = [(j, j) for j in range(n)] if diag_only else [(j, k) for j in range(n) for k in range(j, n)]
         for j, k in pairs:
             lv = lib[j] if diag_only else lib[j, k]
@@ -303,7 +321,7 @@ class C04(Prop):
             else:
                 bounds[j, k] = bounds[k, j] = b
         if not (quad and not diag_only) and tol is None:
-            ctx.count('weak cell (no envelope): %s|%s' % (target, method))
+            ctx.count('weak cell (no envelope): %s' % label)
         return bounds
 
     def finding_key(self, case, v):
